@@ -291,6 +291,16 @@ def wrapperInput {α} (it : List α) : List α := (peekFirst it).2
 /-- VARIANT (not the code): `if not peek_first(items)[1]: return []` and then the ORIGINAL iterator is passed on -/
 def wrapperInputStale {α} (it : List α) : List α := afterPeek it
 
+/-- the empty-input shortcut `if not items: return []` looks at the re-chained stream … -/
+def wrapperSkips {α} (it : List α) : Bool := (peekFirst it).2.isEmpty
+
+/-- … VARIANT (not the code): `if first is None: return []` — an item that is `None` looks like "no first item" -/
+def wrapperSkipsStale {α} (it : List (Option α)) : Bool :=
+  match (peekFirst it).1 with
+  | none => true
+  | some none => true
+  | some (some _) => false
+
 inductive WOutcome where
   | ok (outs : List Nat)
   | raised (e : Nat) (outs : List Nat)
